@@ -18,12 +18,13 @@ def obligations(tier):
     nm = 4 if tier == 'quick' else 6
     base = ['JLS_VERIF_TMAP_ALLOC_INIT=2']
     o.append(Obl('O2_tmap_pairs_exact', 'c12_tmap.c', units=['tmap.c'], defines=base, unwind=nm + 4, timeout=900, backend=PORTFOLIO, mem_gb=24,
-                 ladder=[('N%d_V10' % min(nm, 5), ['NMAX=%d' % min(nm, 5), 'VBITS=10'], None, None), ('N3_V8', ['NMAX=3', 'VBITS=8'], None, None), ('N2_V6', ['NMAX=2', 'VBITS=6'], None, None)],
-                 desc='stored pairs reproduced exactly by sample id -> time; growth 2->4->8; no out-of-bounds access when exactly full',
+                 ladder=([('N3_V8', ['NMAX=3', 'VBITS=8'], None, None), ('N2_V6', ['NMAX=2', 'VBITS=6'], None, None)] if tier == 'quick' else
+                         [('N4_V10', ['NMAX=4', 'VBITS=10'], None, None), ('N3_V8', ['NMAX=3', 'VBITS=8'], None, None)]),
+                 desc='stored pairs reproduced exactly by sample id -> time; growth 2->4(->8); no out-of-bounds access when exactly full',
                  bound='N pairs and id/time deltas < 2^VBITS per rung label, |id0|<2^40, |t0|<2^61'))
     o.append(Obl('O2_tmap_inverse_between', 'c12_tmap.c', units=['tmap.c'], defines=base + ['WITH_INVERSE=1', 'WITH_BETWEEN=1'], unwind=8, timeout=900,
                  backend=PORTFOLIO,
-                 ladder=[('N3_V10', ['NMAX=3', 'VBITS=10'], None, None), ('N2_V8', ['NMAX=2', 'VBITS=8'], None, None)],
+                 ladder=([('N2_V8', ['NMAX=2', 'VBITS=8'], None, None)] if tier == 'quick' else [('N3_V10', ['NMAX=3', 'VBITS=10'], None, None), ('N2_V8', ['NMAX=2', 'VBITS=8'], None, None)]),
                  desc='time -> id exact on stored pairs with a unique time; ids inside a segment map into the segment',
                  bound='N<=3 pairs, deltas < 2^12'))
     o.append(Obl('O2_tmap_extrapolate_memsafe', 'c12_tmap.c', units=['tmap.c'], defines=base + ['NMAX=2', 'VBITS=8', 'WITH_EXTRAP=1'], unwind=6, timeout=600,
